@@ -5,7 +5,8 @@ from common import Check, Machinery, run_tlc, sharded_events, scratch_root
 
 CLAUSES = {"C16": {"zero_not_representable", "product_not_representable", "wrong_implementation_kind",
                    "negated_most_negative_code_not_representable", "alphabet_wider_than_reported_bits"},
-           "C17": {"sum_not_representable", "adder_sum_not_representable"}}
+           "C17": {"sum_not_representable", "adder_sum_not_representable", "merge_add_sum_not_representable",
+                   "merge_output_does_not_contain_operand"}}
 
 
 def opclass(o):
@@ -65,6 +66,11 @@ def run(pid, tier, seed):
       elif ev["op"] == "acc":
         ident = {"clause": cl, "multiplier_max_is_a_power_of_two": bool(ev["m"]["po2"]) or ev["m"]["mode"] in (2, 3),
                  "bias": bool(ev["bias"]), "n_is_pow2": ev["n"] & (ev["n"] - 1) == 0}
+      elif ev["op"] == "merge":
+        fr = lambda t: t["bits"] - t["sg"] - t["int"]
+        pm = lambda t: bool(t["po2"]) or t["mode"] in (2, 3)
+        ident = {"clause": cl, "merge": ev["kind"], "operand_whose_max_is_a_power_of_two": pm(ev["a"]) or pm(ev["b"]),
+                 "integer_widths_differ": ev["a"]["int"] != ev["b"]["int"], "signedness_differs": ev["a"]["sg"] != ev["b"]["sg"]}
       else:
         pm = lambda t: bool(t["po2"]) or t["mode"] in (2, 3)
         ident = {"clause": cl, "operand_whose_max_is_a_power_of_two": pm(ev["a"]) or pm(ev["b"])}
